@@ -1263,7 +1263,10 @@ def run(R):
                traces_validated_against_impl=len(impl_t), correspondence_first_diff=mism, ledger_checked_traces=len(check_in),
                fault_reruns=nfault, api_walks=napi, environment_answers=orckinds, decodability_corrected_by_discovery=dec_disagree, case_kinds=dict(sorted(kinds.items(), key=lambda kv: -kv[1])[:60]),
                samples=[dict(op=where[k][0].ops[where[k][1]]["line"], trace=impl_t[k][:160]) for k in (0, len(impl_t) // 2) if k < len(impl_t)])
-    return "proof", cov, ["single-threaded use; the n-th pread/mmap/malloc fails only where the schedule says",
+    return "proof", cov, ["blob pins: that no pin of the library survives a call is observed on the implementation (pincnt of the blobs the "
+                          "application holds, read after every call); the model (Kdf.Model.BlobPin) covers derived_attr_revalidate only, "
+                          "tied to the code by status and pins left of every register / pid read of the x86-64 PRSTATUS layout",
+                          "single-threaded use; the n-th pread/mmap/malloc fails only where the schedule says",
                           "the modelled path is the single-file, non-flattened diskdump read path; flattened/ELF files and all other API "
                           "calls are covered by the observed invariants and the ledger over their intercepted traces, not by theorems",
                           "distinct live heap and cache buffers have distinct addresses (copy mode of fcache_get_chunk)",
